@@ -97,7 +97,7 @@ fn main() {
             let step: u64 = arg_after(&args, "--step").and_then(|s| s.parse().ok()).unwrap_or(1);
             let progress = PathBuf::from(arg_after(&args, "--progress").unwrap_or_else(|| "/verif/work/progress".into()));
             let env = framework::make_env(verif_seed, tier, "wrk");
-            framework::worker_main(prop, &env, from, to, step, &progress, args.iter().any(|a| a == "--digests"));
+            framework::worker_main(prop, &env, from, to, step, &progress, args.iter().any(|a| a == "--digests"), arg_after(&args, "--first-level").and_then(|s| s.parse().ok()).unwrap_or(0));
             let _ = std::fs::remove_dir_all(&env.scratch);
         }
         "replay" => {
